@@ -53,6 +53,10 @@ CALLS = {
     'simplify': ("(sm.SE3.Rx(S['a']) * sm.SE3.Rx(S['a'])).simplify()", ['a'], "sm.SE3.Rx(S['a']) * sm.SE3.Rx(S['a'])"),
     'simplify:Ry': ("(sm.SE3.Ry(S['a']) * sm.SE3(S['x'], 2, S['z'])).simplify()", ['a', 'x', 'z'], "sm.SE3.Ry(S['a']) * sm.SE3(S['x'], 2, S['z'])"),
     'simplify:Rx-t': ("(sm.SE3(S['x'], S['y'], S['z']) * sm.SE3.Rx(S['a'])).simplify()", ['a', 'x', 'y', 'z'], "sm.SE3(S['x'], S['y'], S['z']) * sm.SE3.Rx(S['a'])"),
+    # simplify() is a method of the common superclass: the rotation-only classes (whose last row is part of the rotation)
+    'simplify:SO3': ("(sm.SO3.Rx(S['a']) * sm.SO3.Rx(S['a'])).simplify()", ['a'], "sm.SO3.Rx(S['a']) * sm.SO3.Rx(S['a'])"),
+    'simplify:SO3-yz': ("(sm.SO3.Ry(S['a']) * sm.SO3.Rz(S['b'])).simplify()", ['a', 'b'], "sm.SO3.Ry(S['a']) * sm.SO3.Rz(S['b'])"),
+    'simplify:SO2': ("(sm.SO2(S['a']) * sm.SO2(S['b'])).simplify()", ['a', 'b'], "sm.SO2(S['a']) * sm.SO2(S['b'])"),
     'points:sym': ("(sm.SE3(S['x'], S['y'], S['z']) * sm.SE3.Rz(S['a'])) * [S['b'], 2, S['c']]", ['a', 'b', 'c', 'x', 'y', 'z']),
 }
 # documented entries -> the calls that exercise them
@@ -63,7 +67,7 @@ DOCUMENTED = {'rotx': ['rotx', 'rotx:deg'], 'roty': ['roty'], 'rotz': ['rotz'], 
               'qpow': ['qpow'], 'SO3.__init__': ['SO3.R'], 'SO3.R': ['SO3.R'], 'SE3.__init__': ['SE3()'], 'SE3.t': ['SE3.t'], 'SE3.inv': ['SE3.inv'],
               'SE3.Ad': ['SE3.Ad'], 'SE3.jacob': ['SE3.jacob'], 'SE3.Rx': ['SE3.Rx'], 'SE3.Ry': ['SE3.Ry'], 'SE3.Rz': ['SE3.Rz'],
               'SE3.Eul': ['SE3.Eul'], 'SE3.RPY': ['SE3.RPY'], 'SE3.Delta': ['SE3.Delta'], 'SE3.Tx': ['SE3.Tx'], 'SE3.Ty': ['SE3.Ty'],
-              'SE3.Tz': ['SE3.Tz'], 'SMPose.simplify': ['simplify', 'simplify:Ry', 'simplify:Rx-t']}
+              'SE3.Tz': ['SE3.Tz'], 'SMPose.simplify': ['simplify', 'simplify:Ry', 'simplify:Rx-t', 'simplify:SO3', 'simplify:SO3-yz', 'simplify:SO2']}
 NOT_COVERED = {'Twist3.Rx': 'Twist3.Rx/Ry/Rz are not constructors of symbolic values in this snapshot (they build unit twists from numbers)',
                'Twist3.Ry': 'see Twist3.Rx', 'Twist3.Rz': 'see Twist3.Rx'}
 
